@@ -17,7 +17,7 @@ m == n or m.startswith(n + "."); its checker is that of an active covering hook
 uninstall / leaving the with-block; functions already instrumented keep their
 checker whatever happens later - and so do the functions, classes and methods
 that an instrumented module DEFINES later: every forest module has factories
-whose def / class statements (nesting depth 2..4) are executed when the factory
+whose def / class statements (nesting depth 2..3) are executed when the factory
 is called, and the search calls them (well-typed, then ill-typed) after every
 install / uninstall / leave and on every newly loaded module; what they return
 must run exactly like the module's top-level function (plain for a plain
@@ -67,11 +67,12 @@ def families(tier):
     checker of a history is A (A and B are the same code); no_install_from =
     first position at which install is no longer offered (an install that is the
     last operation of a history can only be observed by the keep-their-checker
-    probes, which the earlier positions cover); build_new = whether build() (local
-    class / method / def in the method) is probed on newly loaded modules too (make(),
-    the def in a function body, always is); build_after_install = whether build() is
-    probed on every loaded module after an install as well (after uninstall / leave
-    it always is, and make() is after every operation other than import)."""
+    probes, which the earlier positions cover); build_new = whether make(True) (local
+    class and its method) is probed on newly loaded modules too (make(),
+    the def in a function body, always is); nested = "full": after every operation
+    other than import make() and make(True) are probed on every loaded module, and after
+    uninstall / leave make()'s def gets the ill-typed call under a spy as well;
+    "make": make() only."""
     if tier == "quick":
         return [
             dict(
@@ -84,10 +85,10 @@ def families(tier):
                 sym=True,
                 no_install_from=4,
                 build_new=False,
-                build_after_install=True,
+                nested="full",
                 text="histories of length <= 4; name sets: the 5 single names and the pairs {foo.a,foo.sub} {fo,bar.baz} for the first "
                 "active hook, the 5 single names for the second; spelling variants and the pytest route at positions <= 2; first spy of a history is A; "
-                "no install at position 4; call-time definitions: make() on every newly loaded module, make() + build() on every loaded module after every "
+                "no install at position 4; call-time definitions: make() on every newly loaded module, make() + make(True) on every loaded module after every "
                 "install / uninstall / leave",
             )
         ]
@@ -102,10 +103,11 @@ def families(tier):
             sym=False,
             no_install_from=4,
             build_new=False,
-            build_after_install=False,
+            nested="make",
             text="histories of length <= 4; name sets: every non-empty subset of size <= 2 of {foo, foo.a, foo.sub, fo, bar.baz} for both hooks; "
             "spelling variants at positions <= 2, pytest route at every position while no hook is active; no install at position 4; call-time definitions: "
-            "make() on every newly loaded module and on every loaded module after every install, make() + build() on every loaded module after every uninstall / leave",
+            "make() only (the def in a function body) - on every newly loaded module and on every loaded module after every install / uninstall / leave; make(True) is left to "
+            "the quick family and T5 (this family's own dimension is the name sets)",
         ),
         dict(
             name="T5",
@@ -117,9 +119,9 @@ def families(tier):
             sym=True,
             no_install_from=5,
             build_new=False,
-            build_after_install=True,
+            nested="full",
             text="histories of length <= 5; name sets: the 5 single names for both hooks; spelling variants at position 1, pytest route at positions <= 2; "
-            "first spy of a history is A; no install at position 5; call-time definitions: make() on every newly loaded module, make() + build() on every loaded "
+            "first spy of a history is A; no install at position 5; call-time definitions: make() on every newly loaded module, make() + make(True) on every loaded "
             "module after every install / uninstall / leave",
         ),
     ]
@@ -212,7 +214,7 @@ def judge(records, pre, op, out, tags, extra):
             e = extra.get(x)
             want_d = t if t in ("A", "B") else "noraise"
             if e is not None and (e["make"] != t or e["D"] != want_d or e.get("build", t) != t):
-                probs.append(("partial-instrumentation", x, f"f runs as {t!r} but dataclass probe {e['D']!r}, nested def {e['make']!r}, nested class/method/def {e.get('build', 'not probed')!r}"))
+                probs.append(("partial-instrumentation", x, f"f runs as {t!r} but dataclass probe {e['D']!r}, nested def {e['make']!r}, class in a function body + its method {e.get('build', 'not probed')!r}"))
             cids = {c for _, c in out["decos"].get(x, ())}
             if (t in ("A", "B") and cids != {t}) or (t not in ("A", "B") and cids):
                 probs.append(("decoration-log", x, f"f runs as {t!r} but at import the spies were handed functions of this module by {sorted(cids)}"))
@@ -225,7 +227,7 @@ def judge(records, pre, op, out, tags, extra):
             probs.append(("checker-changed", m, f"was {t0!r}, is {t!r} after {op}"))
         e = extra.get(m)
         if e is not None and m not in out["new"] and t == t0:
-            # definitions made at CALL time (def / class statements in function bodies, depth 2..4) behave
+            # definitions made at CALL time (def / class statements in function bodies, depth 2..3) behave
             # like the module they belong to at every later point of the history: plain if it was loaded
             # plain, otherwise checked by the checker of the install call that loaded it
             for what, label in NESTED:
@@ -238,7 +240,7 @@ def judge(records, pre, op, out, tags, extra):
 
 NESTED = [
     ("make", "a function defined by a def statement in a function body (executed by a call made now)"),
-    ("build", "a local class / its method / a def inside that method (statements executed by calls made now)"),
+    ("build", "the method of a class defined by a class statement in a function body (make(True), executed by a call made now)"),
 ]
 
 
@@ -261,10 +263,14 @@ def _world(tmp):
     return w
 
 
-def _step(w, op, records, pre, build_new=True, build_after_install=True):
+def _step(w, op, records, pre, nested="full", build_new=True):
+    """nested = "full": after every operation but import, make() AND make(True) of every loaded module
+    (after uninstall / leave make()'s def gets the ill-typed call under a spy too); "make": make() only
+    (well-typed call tells the spy, ill-typed call for spy-less modules)."""
     out = w.apply(op)
     gone = op[0] in ("uninstall", "leave")
-    key, tags, extra = w.observe(new=out["new"], make_all=(op[0] != "import"), strict=gone, build_new=build_new, build_all=(gone or build_after_install))
+    full = nested == "full"
+    key, tags, extra = w.observe(new=out["new"], make_all=(op[0] != "import"), strict=gone, build_new=build_new and full, build_all=full, nested_illtyped=gone and full)
     return out, key, tags, extra, judge(records, pre, op, out, tags, extra)
 
 
@@ -292,7 +298,7 @@ def _expand(job):
         pos = len(hist) + 1
         snap = w.snapshot()
         for op in enabled_ops(records, P, pos):
-            out, k2, t2, extra, probs = _step(w, op, records, tags, P["build_new"], P["build_after_install"])
+            out, k2, t2, extra, probs = _step(w, op, records, tags, P["nested"], P["build_new"])
             stats["transitions"] += 1
             alive = [r for r in records if r[3]]
             for x, e in extra.items():
@@ -597,8 +603,8 @@ def _run(ctx, tmp, pool, sw):
         call_time_definition_probes=stats.get("nested_probes", 0),
         call_time_definition_probes_after_the_loading_hook_is_gone=stats.get("nested_probes_after_the_loading_hook_is_gone", 0),
         call_time_definition_probes_while_only_other_hooks_are_active=stats.get("nested_probes_while_only_other_hooks_are_active", 0),
-        forest_module="every forest module defines f (module level), dataclass D, make() -> def in a function body (depth 2), build() -> class in a function body "
-        "(depth 2) with a method (3) that defines a def (4); the nested statements - and the decorator expressions the hook put on them - are executed when the "
+        forest_module="every forest module defines f (module level), dataclass D, make() -> def in a function body (depth 2), make(True) -> class in a function body "
+        "(depth 2) with a method (3); the nested statements - and the decorator expressions the hook put on them - are executed when the "
         "factory is CALLED, which the search does at every later point of the history (well-typed call, which tells the spy; ill-typed call for spy-less ones and, "
         "after uninstall / leave, for make() under a spy too)",
         alphabet=ALPHABET,
